@@ -118,7 +118,7 @@ impl Property for C10 {
         "C10"
     }
     fn rule(&self) -> String {
-        "exhaustive: every string of length <=5 (thorough <=6) over {a, space, LF, CR, é, €, 😀, FF, U+2028}; for each: every char-boundary offset (to_proto::position vs reference, round trip through from_proto::position except strictly inside a CRLF pair, LineIndex::pos_to_line), every (line, column) with line < lines and column <= max width+1 (from_proto::position vs reference; columns inside a surrogate pair and lines past the end are unspecified and skipped), LineIndex::line_to_pos, one range. random: mixed texts up to 4 KB and vendored files (LF and CRLF). distinct = digest of text; non-trivial = the text contains a multi-byte char, CR, FF or U+2028".into()
+        "exhaustive: every string of length <=5 (thorough <=6) over {a, space, LF, CR, é, €, 😀, FF, U+2028}; for each: every char-boundary offset (to_proto::position vs reference, round trip through from_proto::position except strictly inside a CRLF pair, LineIndex::pos_to_line), every (line, column) with line < lines and column <= max width+1 (from_proto::position vs reference; columns inside a surrogate pair and lines past the end are unspecified and skipped), LineIndex::line_to_pos, one range. exhaustive family code-point-classes: the first and last code point of every UTF-8 and UTF-16 length class and one character per UTF-8 lead byte (C2..DF, E0..EF, F0..F4), alone, in pairs and around line breaks. random: mixed texts up to 4 KB with arbitrary scalar values, and vendored files (LF and CRLF). distinct = digest of text; non-trivial = the text contains a multi-byte char, CR, FF or U+2028".into()
     }
     fn assumptions(&self) -> Vec<String> {
         vec!["reference mapper RefPos written from the LSP specification (terminators LF, CRLF, CR; UTF-16 columns; clamping)".into()]
@@ -138,6 +138,39 @@ impl Property for C10 {
         let mut fams = v;
         let all_exhaustive_marker = false;
         let _ = all_exhaustive_marker;
+        // code points at the edges of every UTF-8 / UTF-16 length class and one per UTF-8 lead byte,
+        // alone and in pairs, before and after other text and line breaks
+        fams.push(
+            Family::new("code-point-classes", 1, |_c, _rng, emit| {
+                let mut cps: Vec<char> = Vec::new();
+                for cp in [0x7Fu32, 0x80, 0xFF, 0x7FF, 0x800, 0xFFF, 0x1000, 0xD7FF, 0xE000, 0xFEFF, 0xFFFD, 0xFFFF, 0x10000, 0x1FFFF, 0x3FFFF, 0x40000, 0xFFFFF, 0x100000, 0x10FFFF] {
+                    cps.extend(char::from_u32(cp));
+                }
+                // one character per lead byte C2..DF, E0..EF, F0..F4
+                for lead in 0xC2u32..=0xDF {
+                    cps.extend(char::from_u32((lead & 0x1F) << 6 | 0x21));
+                }
+                for lead in 0xE0u32..=0xEF {
+                    let cp = (lead & 0x0F) << 12 | if lead == 0xE0 { 0x821 } else if lead == 0xED { 0x021 } else { 0x021 };
+                    cps.extend(char::from_u32(cp));
+                }
+                for lead in 0xF0u32..=0xF4 {
+                    let cp = (lead & 0x07) << 18 | if lead == 0xF0 { 0x10021 } else { 0x21 };
+                    cps.extend(char::from_u32(cp));
+                }
+                cps.sort();
+                cps.dedup();
+                for (i, &c) in cps.iter().enumerate() {
+                    let d = cps[(i * 7 + 3) % cps.len()];
+                    for t in [format!("{c}"), format!("a{c}b"), format!("{c}{d}x\n{d}{c}"), format!("x{c}\r\n{c}y{d}\rz{d}{c}\n")] {
+                        if !emit(json!({"kind": "pos", "text": t})) {
+                            return;
+                        }
+                    }
+                }
+            })
+            .exhaustive(),
+        );
         fams.push(Family::new("random-long", ctx.tier.pick(16, 128), |_c, rng, emit| {
             for _ in 0..40 {
                 let n = 1 + rng.below(1500);
@@ -148,6 +181,10 @@ impl Property for C10 {
                         s.push_str(SYMS[r]);
                     } else if r < 14 {
                         s.push_str("\r\n");
+                    } else if r < 18 {
+                        // any scalar value
+                        let cp = (rng.next() % 0x110000) as u32;
+                        s.push(char::from_u32(cp).filter(|c| !matches!(c, '\n' | '\r')).unwrap_or('\u{800}'));
                     } else {
                         s.push((b'a' + (r as u8 % 26)) as char);
                     }
